@@ -14,6 +14,19 @@ seq("C05", "Explicit-state model checking of the real Queue and LQueue objects: 
 seq("C06", "Explicit-state model checking of the real Stack and LStack objects: breadth-first search over every Push/Pop history over a 3-value alphabet under a size cap, run to a fixpoint, with Size/Peek/Search compared against a slice model in every reachable state and every Pop result compared with the model's top.",
     "explicit-state BFS over real method calls vs reference model, to fixpoint", "DESIGN.md §3 C05/C06")
 
+seq("C03", "Explicit-state model checking of the real Heap: BFS to a fixpoint over Push/Pop/Clear/Delete(held and absent)/Convert(<,>)/Merge/Meld (result adopted as the current heap so chains continue from merged states) from NewHeap and from every FromSlice start over a small alphabet with duplicates, both comparators and a by-key comparator with ties; model = multiset + comparator; every reachable state is drained on a replayed copy and must come out in comparator order with the multiset conserved; arrays that violate heap order are searched for a concrete out-of-order Pop witness over all extensions by <=2 pushes. Plus every input slice up to length 7/8 x 3 comparators for FromSlice and Sort.",
+    "explicit-state BFS over real method calls vs multiset model, to fixpoint; exhaustive input enumeration for Sort/FromSlice", "DESIGN.md §3 C03")
+seq("C04", "Explicit-state model checking of the real BsTree: BFS to a fixpoint over every Upsert/Delete history on keys 0..4 (0..5 thorough) x 2 values for ascending and descending comparators; in every reachable state Get of every key (incl. absent), Size and the Traverse sequence are compared with a sorted-map model.",
+    "explicit-state BFS over real method calls vs sorted-map model, to fixpoint", "DESIGN.md §3 C04")
+seq("C07", "Explicit-state model checking of the real LRUCache for every capacity 1..4 (1..5 thorough): BFS to a fixpoint over Add/Get/GetOldest/Remove/RemoveOldest/RemoveYoungest/Flush on keys 0..4 x 2 values; every return value is compared with a recency-list model, and every reachable state is checked through Count<=capacity, GetYoungest, a lookup of every key on one replayed copy and a full RemoveOldest drain on another (exposes map/list disagreement), plus items-map size == list length read by reflection. NewLRU(n<=0) must error.",
+    "explicit-state BFS over real method calls vs recency-list model, to fixpoint", "DESIGN.md §3 C07")
+seq("C09", "Explicit-state model checking of the real Trie: BFS to a fixpoint over every Put history (all insertion orders, overwrites) of up to 3 (4 thorough) distinct keys of length 1..3 over {a,b}, and over byte alphabets containing 0xE9 / 0xC3 0xA9 (non-ASCII, invalid UTF-8); in every reachable state Get and Contains of every string of length 0..4, Size, Keys, StartsWith(p) for every p of length 0..3 and LongestPrefix(q) for every q are compared byte for byte with a map model; empty key/prefix/query must be rejected without changing the trie.",
+    "explicit-state BFS over real method calls vs map model, to fixpoint", "DESIGN.md §3 C09")
+seq("C10", "Explicit-state model checking of the real BTree: BFS to a fixpoint over every Put/Remove history on keys 0..4 (0..5 thorough) x 2 values (tombstones make the space finite); in every reachable state Get of every key, Size, IsEmpty, Traverse and Height <= log2(max(1,N)) are compared with a sorted-map model + set of keys ever inserted. Multi-level splits: every insertion order of 8 (9 thorough) keys, all prefixes checked, plus sorted/reversed runs of 200 keys.",
+    "explicit-state BFS over real method calls vs sorted-map model, to fixpoint; exhaustive insertion orders", "DESIGN.md §3 C10")
+seq("C19", "Explicit-state model checking of the real SList and DList: BFS to a fixpoint over Unshift/Append/Shift/Pop/InsertAfter/InsertBefore/Delete/Replace addressed by position (handle from Find immediately before use) with fresh values; the state key renames values by first occurrence (data independence: the lists only apply == to values), which makes the capped space finite; Each/First/Last/Find are compared with a slice model in every state, observers must leave the heap graph unchanged, a cyclic next chain is detected by reflection and a watchdog turns non-termination into a finding. A second family with repeated values checks first-occurrence semantics of Replace/Find.",
+    "explicit-state BFS over real method calls vs slice model, to fixpoint under value renaming", "DESIGN.md §3 C19")
+
 not_built = {}  # property -> reason (kept current while the framework is being built)
 props = [json.loads(l)["id"] for l in open(os.path.join(ROOT, "properties.jsonl"))]
 for p in props:
